@@ -1,8 +1,114 @@
 import DendroModel.Basic.Tree
-open DendroModel
+import DendroModel.Model.C13
+open DendroModel DendroModel.C13
+
+/-! line protocol of `drv_c13`
+  `op schema cfg nstitle nslabels existing coll tree label tail tok tok …`
+  op ∈ blocks | list | tree | yield | dataset;  schema ∈ newick | nexus
+  cfg = rooting char (n u r U R = None, default-unrooted, default-rooted, force-unrooted, force-rooted) followed by
+        four 0/1 flags: store_tree_weights, suppress_internal_node_taxa, suppress_leaf_node_taxa, suppress_edge_lengths
+  nstitle = string field; nslabels, tail = comment-list field (`.` empty, else comma separated string fields)
+  existing = number of placeholder trees (list) / blocks (dataset) already in the target; coll, tree = `-` or integer
+  label = string field (`-` = no label= argument);  tok = `text|quoted|eof|comments`
+  string field: `-` None, `=` empty, else 6 hex digits per code point.
+  answer: JSON `{"ns":[…],"title":…,"r":…}` or `{"err":"…"}` -/
+
+def parseStrList (s : String) : Option (List String) :=
+  if s == "." then some []
+  else (s.splitOn ",").mapM fun f => match decodeStr f with
+    | some (some x) => some x
+    | _ => none
+
+def parseBit (s : String) : Option Bool :=
+  if s == "1" then some true else if s == "0" then some false else none
+
+def parseTok (w : String) : Option Tok :=
+  match w.splitOn "|" with
+  | [t, q, e, c] =>
+    match decodeStr t, parseBit q, parseBit e, parseStrList c with
+    | some (some t), some q, some e, some c => some { text := t, quoted := q, coms := c, eof := e }
+    | _, _, _, _ => none
+  | _ => none
+
+def parseCfg (s : String) : Option Cfg :=
+  match s.toList with
+  | [r, a, b, c, d] =>
+    let rooting : Option Rooting := match r with
+      | 'n' => some .none | 'u' => some .defU | 'r' => some .defR | 'U' => some .forceU | 'R' => some .forceR
+      | _ => none
+    match rooting, parseBit (String.singleton a), parseBit (String.singleton b), parseBit (String.singleton c),
+          parseBit (String.singleton d) with
+    | some r, some a, some b, some c, some d =>
+      some { rooting := r, storeWeights := a, suppressInternalTaxa := b, suppressLeafTaxa := c, suppressLengths := d }
+    | _, _, _, _, _ => none
+  | _ => none
+
+def parseOInt (s : String) : Option (Option Int) :=
+  if s == "-" then some none else s.toInt?.map some
+
+def q (s : String) : String := "\"" ++ s ++ "\""
+def jStr (s : Option String) : String := match s with | none => "null" | some x => q (encodeStr (some x))
+def jList (l : List String) : String := "[" ++ ",".intercalate l ++ "]"
+
+mutual
+def jNode : Node → String
+  | .mk taxon label len coms cs =>
+    jList [match taxon with | some t => toString t | none => "null", jStr label, jStr len,
+           jList (coms.map fun c => jStr (some c)), "[" ++ jNodes cs ++ "]"]
+def jNodes : List Node → String
+  | [] => ""
+  | [c] => jNode c
+  | c :: d :: r => jNode c ++ "," ++ jNodes (d :: r)
+end
+
+def jTree (t : Tree) : String :=
+  "{\"n\":" ++ jStr t.name ++ ",\"r\":" ++ (match t.rooted with | some true => "true" | some false => "false" | none => "null")
+    ++ ",\"w\":" ++ (match t.weight with | none => "null" | some none => "\"D\"" | some (some e) => jStr (some e))
+    ++ ",\"c\":" ++ jList (t.coms.map fun c => jStr (some c)) ++ ",\"t\":" ++ jNode t.root ++ "}"
+
+def jErr : Err → String
+  | .parse => "{\"err\":\"parse\"}"
+  | .index => "{\"err\":\"IndexError\"}"
+  | .value => "{\"err\":\"ValueError\"}"
+  | .stuck => "{\"err\":\"stuck\"}"
+
+def answer (ns : NSObj) (r : String) : String :=
+  "{\"ns\":" ++ jList (ns.labels.map fun l => jStr (some l)) ++ ",\"title\":" ++ jStr ns.title ++ ",\"r\":" ++ r ++ "}"
+
+def placeholder (i : Nat) : Tree :=
+  { name := some s!"e{i}", rooted := none, weight := none, coms := [], root := blankNode [] }
 
 def handle (ws : List String) : String :=
   match ws with
+  | op :: schema :: cfg :: nstitle :: nslabels :: existing :: coll :: tree :: label :: tail :: toks =>
+    let sch : Option Schema := if schema == "newick" then some .newick else if schema == "nexus" then some .nexus else none
+    match sch, parseCfg cfg, decodeStr nstitle, parseStrList nslabels, existing.toNat?, parseOInt coll, parseOInt tree,
+          decodeStr label, parseStrList tail, toks.mapM parseTok with
+    | some sch, some cfg, some title, some labels, some ex, some coll, some tree, some label, some tail, some toks =>
+      let ns : NSObj := { labels := labels, title := title }
+      match op with
+      | "blocks" =>
+        match readBlocks sch cfg toks tail ns with
+        | .error e => jErr e
+        | .ok (bs, ns') => answer ns' (jList (bs.map fun b => jList (b.map jTree)))
+      | "list" =>
+        match listGet sch cfg toks tail ns ((List.range ex).map placeholder) coll tree with
+        | .error e => jErr e
+        | .ok (l, ns') => answer ns' (jList (l.map jTree))
+      | "tree" =>
+        match treeGet sch cfg toks tail ns coll tree label with
+        | .error e => jErr e
+        | .ok (t, ns') => answer ns' (jTree t)
+      | "yield" =>
+        match yieldFrom sch cfg toks tail ns with
+        | .error e => jErr e
+        | .ok (l, ns') => answer ns' (jList (l.map jTree))
+      | "dataset" =>
+        match datasetRead sch cfg toks tail ns ((List.range ex).map fun i => [placeholder i]) with
+        | .error e => jErr e
+        | .ok (bs, ns') => answer ns' (jList (bs.map fun b => jList (b.map jTree)))
+      | _ => "bad-op"
+    | _, _, _, _, _, _, _, _, _, _ => "bad-op"
   | _ => "bad-op"
 
 def main : IO Unit := do driverLoop (← IO.getStdin) handle
